@@ -181,3 +181,45 @@ pub fn run(cases: &str, events: &str) {
         out.ev(ev);
     }
 }
+
+/// C10, string and number formats: (type, format, spelling) -> the type add_type chooses
+pub fn run_formats(cases: &str, events: &str) {
+    let cases = read_cases(cases);
+    let mut out = Out::new(events);
+    for (i, c) in cases.iter().enumerate() {
+        let ty = c["ty"].as_str().unwrap();
+        let fmt = c["fmt"].as_str().unwrap();
+        let f = if fmt.is_empty() { String::new() } else { format!(",\"format\":\"{}\"", fmt) };
+        let text = match c["spelling"].as_str().unwrap() {
+            "nullable" => format!("{{\"type\":[\"{}\",\"null\"]{}}}", ty, f),
+            "split" => format!("{{\"allOf\":[{{\"type\":\"{}\"{}}},{{\"type\":\"{}\",\"description\":\"second\"}}]}}", ty, f, ty),
+            _ => format!("{{\"type\":\"{}\"{}}}", ty, f),
+        };
+        let schema: schemars::schema::Schema = serde_json::from_str(&text).unwrap();
+        let r = guarded(|| {
+            let mut ts = TypeSpace::default();
+            match ts.add_type(&schema) {
+                Err(_) => ("err".to_string(), String::new()),
+                Ok(id) => {
+                    let t = ts.get_type(&id).unwrap();
+                    let inner = match t.details() {
+                        TypeDetails::Option(inner) => Some(inner),
+                        _ => None,
+                    };
+                    let t = match inner {
+                        Some(inner) => ts.get_type(&inner).unwrap(),
+                        None => t,
+                    };
+                    let name = match t.details() {
+                        TypeDetails::Builtin(n) => n.to_string(),
+                        TypeDetails::String => "String".to_string(),
+                        _ => format!("other:{}", t.name()),
+                    };
+                    ("ok".to_string(), name.chars().filter(|c| !c.is_whitespace()).collect())
+                }
+            }
+        });
+        let (res, chosen) = r.unwrap_or_else(|_| ("panic".to_string(), String::new()));
+        out.ev(json!({"ev": "fmt", "case": i + 1, "c": c, "res": res, "chosen": chosen}));
+    }
+}
